@@ -54,7 +54,7 @@ def convert(src, dst, stats, samples):
                     o.write('H %s 0\n' % hs)
                 stats['pairs'] += 1
             if len(samples) < 3 and d['nn'] >= 1 and len(d['h']) > 40:
-                acc = [(S(h), r) for h, r in zip(d['h'], d['r']) if r][:2]
+                acc = ([(S(h), r) for h, r in zip(d['h'], d['r']) if r and any(x != -1 for x in r[1:])][:1] + [(S(h), r) for h, r in zip(d['h'], d['r']) if r][:1])
                 rej = [(S(h), r) for h, r in zip(d['h'], d['r']) if not r][:2]
                 samples.append(dict(pattern=p, cases=[dict(header=h, demanded=('accept, numbers %s (-1 = caller default)' % r[1:]) if r else 'reject') for h, r in acc + rej]))
 
